@@ -41,6 +41,13 @@ package react
 //@   loop 1:
 //@     invariant[open] closes == 0
 
+//@ func NewAgent$1
+//@   props C09 C11 C18
+//@   requires config != nil && config.MaxStep >= 1
+//@   note the run loop rejects a step limit below 1 ("max run steps limit must be at least 1") before the state generator is called (checked with a probe), so MaxStep >= 1 here
+//@   modifies fresh()
+//@   ensures[own_history_per_run] @C09,C11 result != nil && fresh(result) && len(result.Messages) == 0 && (result.Messages == nil || fresh(result.Messages))
+
 //@ func NewAgent$2
 //@   props C18
 //@   requires state != nil
